@@ -822,8 +822,13 @@ class ResourceProvider(object):
                 # descendant for the current RP and check if the new
                 # parent is part of that set.
                 subtree_rps = self.get_subtree(context)
-                subtree_rp_uuids = {rp.uuid for rp in subtree_rps}
-                if parent_uuid in subtree_rp_uuids:
+                # Compare internal IDs, not the UUID string of the request:
+                # the database may match UUIDs case-insensitively (MySQL's
+                # default collations do), in which case another spelling of
+                # a descendant's UUID is found by the lookup above but is not
+                # equal to any stored UUID string.
+                subtree_rp_ids = {rp.id for rp in subtree_rps}
+                if parent_ids.id in subtree_rp_ids:
                     raise exception.ObjectActionError(
                         action='update',
                         reason='creating loop in the provider tree is '
